@@ -175,15 +175,33 @@ BASES = {"draft3": "Draft3Validator", "draft4": "Draft4Validator",
          "draft6": "Draft6Validator", "draft7": "Draft7Validator"}
 
 
+def make_override(name, stock):
+    """The stock keyword plus one more rule (strings containing "z", arrays of two or more, objects with a member
+    "zz" or "c"): a class that
+    overrides an existing keyword, as the FAQ's default-filling `properties` does."""
+    from jsonschema.exceptions import ValidationError
+
+    def kw(validator, value, instance, schema):
+        for e in stock(validator, value, instance, schema) or ():
+            yield e
+        if (isinstance(instance, str) and "z" in instance) or (isinstance(instance, list) and len(instance) >= 2) or \
+                (isinstance(instance, dict) and ("zz" in instance or "c" in instance)):
+            yield ValidationError("dsim: overridden %s also rejects %r" % (name, instance))
+    return kw
+
+
 def build_class(draft, custom, collab):
     """custom: {"types": [...], "keywords": [...], "variant": v} or None."""
     import jsonschema
     from jsonschema import validators as V
     base = getattr(jsonschema, BASES[draft])
-    if not custom or not (custom.get("types") or custom.get("keywords")):
+    if not custom or not (custom.get("types") or custom.get("keywords") or custom.get("override")):
         return base
     v = custom.get("variant", 0)
     kws = dict((k, make_keyword(k, v, collab)) for k in custom.get("keywords", ()))
+    ov = custom.get("override")
+    if ov and ov in base.VALIDATORS:
+        kws[ov] = make_override(ov, base.VALIDATORS[ov])
     tc = None
     if custom.get("types"):
         tc = base.TYPE_CHECKER.redefine_many(
